@@ -1,13 +1,15 @@
 """c18 — emitter protocol: EmitterStack model vs the real cff.EmitterStack on generated
 nestings (shared sub-stacks), event protocol of generated flows (gen_common)."""
+import os
 import random
+import re
 
 import common
 import coq_cases
 import gen_common
 import par_common
 
-DEP_FILES = ["EmitterModel.v", "EmitterProofs.v", "FlowOpModel.v", "FlowOpProofs.v", "FlowEventProofs.v"]
+DEP_FILES = ["EmitterModel.v", "EmitterProofs.v", "EmitterSessionModel.v", "EmitterSessionProofs.v", "FlowOpModel.v", "FlowOpProofs.v", "FlowEventProofs.v"]
 PID = "C18"
 
 METHODS = ["TaskInit", "TaskSuccess", "TaskError", "TaskErrorRecovered", "TaskSkipped", "TaskPanic", "TaskPanicRecovered", "TaskDone",
@@ -35,6 +37,87 @@ def gen_program(r, nid):
                 nid[0] += 1
         defs.append(" ".join(args) or "E")
     return " ; ".join(defs)
+
+
+def gen_session(r):
+    """an EmitterStack program plus a session on its last definition: Init calls of the four
+    kinds and Done calls on children created before"""
+    nid = [0]
+    prog = gen_program(r, nid)
+    ops, n = [], 0
+    for _ in range(r.randint(1, 12)):
+        if n == 0 or r.random() < 0.4:
+            ops.append("I" + r.choice("TFPS"))
+            n += 1
+        else:
+            ops.append("E%d" % r.randrange(n))
+    return prog, ops, nid[0]
+
+
+def session_example(prog, ops, nids, real):
+    """Coq proposition: what every user emitter sees in EmitterSessionModel.session = what the recorders saw"""
+    lets = []
+    defs = [d.strip() for d in prog.split(";")]
+    for k, d in enumerate(defs):
+        args = []
+        for tok in d.split():
+            if tok == "E":
+                continue
+            args.append("VOne (ALeaf %s)" % tok[1:] if tok[0] == "L" else "VOne ANop" if tok[0] == "N" else "v%s" % tok[1:])
+        lets.append("let v%d := mk_stack %s in" % (k, coq_cases.coq_list(args)))
+    kinds = "TFPS"
+    opt = coq_cases.coq_list("SInit %d" % kinds.index(o[1]) if o[0] == "I" else "SEv %s 0" % o[1:] for o in ops)
+    seen = {i: [] for i in range(nids)}
+    for ent in real.split():
+        i, _, c = ent.partition(":")
+        seen[int(i)].append("SInit %d" % kinds.index(c[1]) if c[0] == "I" else "SEv %s 0" % c[1:])
+    want = coq_cases.coq_list(coq_cases.coq_list(seen[i]) for i in range(nids))
+    return "(%s let lg := session v%d %s in map (fun i => sees i lg) (seq 0 %d)) = %s" % (" ".join(lets), len(defs) - 1, opt, nids, want), seen
+
+
+def session_tie(chk, r):
+    """second level of the stack (Init methods, child stacks): real cff.EmitterStack sessions vs EmitterSessionModel evaluated inside Coq"""
+    n = 120 if chk.tier == "quick" else 900
+    cases = [gen_session(r) for _ in range(n)]
+    cases.append(("L0 L1 L2 ; V0 L3 ; V0 L4 ; V1 V2 L0", ["IT", "IF", "E1", "E0", "IS", "IP", "E3", "E2", "E0"], 5))
+    exe = common.go_build("emsession", tags="verif")
+    rc, out, err = common.run([exe], input="\n".join("%s # %s" % (p, " ".join(o)) for p, o, _ in cases) + "\n", check=False, timeout=600)
+    real = out.split("\n")
+    if rc != 0 or len(real) < len(cases):
+        k = min(len(real), len(cases)) - 1
+        chk.violate("the process driving cff.EmitterStack through a session died (exit %d) at `%s # %s`" % (rc, cases[k][0], " ".join(cases[k][1])),
+                    {"program": cases[k][0], "ops": cases[k][1], "stderr": err[-1500:]})
+        return
+    d = os.path.join(common.CACHE, "coqcases")
+    os.makedirs(d, exist_ok=True)
+    nops = {}
+    for shard in range(0, len(cases), 300):
+        L = ["From CffVerif Require Import EmitterSessionModel.", "Import ListNotations.", ""]
+        seens = []
+        for i in range(shard, min(shard + 300, len(cases))):
+            prog, ops, nids = cases[i]
+            ex, seen = session_example(prog, ops, nids, real[i])
+            seens.append(seen)
+            nops[len(ops)] = nops.get(len(ops), 0) + 1
+            chk.count(1, key=("emsession", prog, tuple(ops)))
+            L.append("Example x%d : %s." % (i, ex))
+            L.append("Proof. vm_compute. reflexivity. Qed.")
+        path = os.path.join(d, "emsession_%s_%d.v" % (chk.pid, shard))
+        open(path, "w").write("\n".join(L) + "\n")
+        rc, o, e = common.run("timeout 900 coqc -Q %s CffVerif %s" % (common.COQ, path), cwd=d, check=False, timeout=1000)
+        if rc != 0:
+            m = re.search(r"line (\d+), characters", o + e)
+            i = shard + max(0, (int(m.group(1)) - 4) // 2) if m else shard
+            i = min(i, len(cases) - 1)
+            prog, ops, nids = cases[i]
+            chk.violate("EmitterStack session `%s # %s`: the calls the user emitters received through the Init methods and the child stacks (%s) are not those of the session itself (EmitterSessionModel.session evaluated in Coq)"
+                        % (prog, " ".join(ops), real[i][:300]),
+                        {"program": prog, "ops": ops, "real_log": real[i], "per_emitter": {str(k): v for k, v in seens[i - shard].items()}, "coq_file": path, "coq_log": (o + e)[-1500:]})
+            break
+    chk.cov["correspondence"]["emitter_sessions"] = {
+        "kind": "real cff.EmitterStack driven through sessions (TaskInit/FlowInit/ParallelInit/SchedulerInit creating children, Done/EmitScheduler on earlier children, recorders numbering their own children) "
+                "vs EmitterSessionModel.session evaluated inside Coq (vm_compute), compared per user emitter (order across emitters is not compared)",
+        "sessions": len(cases), "ops_per_session": {str(k): nops[k] for k in sorted(nops)}}
 
 
 def run(chk):
@@ -78,6 +161,7 @@ def run(chk):
             break
     coq_cases.check_examples(chk, "emstack", "EmitterModel", [coq_cases.emstack_example(progs[i], model[i]) for i in range(0, min(len(progs), 200), 20)],
                              "receivers computed by the extracted mk_stack/deliver re-computed inside Coq")
+    session_tie(chk, r)
     chk.sample({"program": progs[0], "model_receivers": model[0]})
     chk.cov["correspondence"]["emitter_stack"] = {"kind": "real cff.EmitterStack vs extracted mk_stack/deliver on generated definitions with shared sub-stacks; 18 methods of 4 emitter kinds, payload identity",
                                                   "programs": len(progs), "definitions_per_program": shapes}
